@@ -25,7 +25,7 @@
         kani::cover!(r.len() < s.len(), "stripped");
         kani::cover!(r.len() == s.len() && s.len() == 4, "unchanged");
     }
-//# ob name=skip_nl_contract fn=compiler::lexer::skip_nl kind=bounded bound="all UTF-8 strings of length <= 4 bytes" stmt="skip_nl skips at most one LF followed by at most one CR and nothing else; it reports a line end exactly when it skipped something or the rest is empty"
+//# ob name=skip_nl_contract fn=compiler::lexer::skip_nl kind=bounded bound="all UTF-8 strings of length <= 4 bytes" stmt="skip_nl skips exactly one line ending - CR LF, a lone LF or a lone CR (at most one CR followed by at most one LF) - and nothing else, so that a line statement / line comment occupies its whole line under every line-ending style; it reports a line end exactly when it skipped something or the rest is empty"
     #[kani::proof]
     #[kani::unwind(7)]
     fn skip_nl_contract() {
@@ -34,11 +34,14 @@
         let (was, skip) = skip_nl(s);
         assert!(skip <= 2 && skip <= s.len());
         let mut exp = 0;
-        if s.len() > 0 && b[0] == b'\n' { exp = 1; }
-        if s.len() > exp && b[exp] == b'\r' { exp += 1; }
+        // the contract comes from the property ("a line statement behaves as the corresponding tag occupying that whole
+        // line", for every line-ending style), not from the code: a first version encoded the code's LF-then-CR order
+        // and therefore accepted a torn CR LF (DESIGN §11)
+        if s.len() > 0 && b[0] == b'\r' { exp = 1; }
+        if s.len() > exp && b[exp] == b'\n' { exp += 1; }
         assert!(skip == exp);
         assert!(was == (exp > 0 || s.len() == exp));
-        kani::cover!(skip == 2, "lf cr");
+        kani::cover!(skip == 2, "cr lf");
     }
 //# ob name=tokenizer_new_trailing_newline fn=compiler::lexer::Tokenizer::new kind=bounded bound="all UTF-8 sources of length <= 4 bytes, keep_trailing_newline in {false, true}" stmt="Tokenizer::new removes from the end of the source exactly one LF and then one CR (so one trailing LF, CRLF or CR) unless keep_trailing_newline is set, and never anything else"
     #[kani::proof]
@@ -233,7 +236,7 @@
             let (trim, lstrip, keep) = (s & 1 != 0, s & 2 != 0, s & 4 != 0);
             let mut env = Environment::new();
             env.set_trim_blocks(trim); env.set_lstrip_blocks(lstrip); env.set_keep_trailing_newline(keep);
-            for content in ["R", "\nR", "\r\nR", "\n\nR", " \nR", "{{ x }}{% if %}{# #}", "R\n", "R \n"] {
+            for content in ["R", "\nR", "\r\nR", "\n\nR", " \nR", "{{ x }}{% if %}{# #}", "R\n", "R \n", "   ", " \t", "\n  ", "\r\n \t", "R  ", "R\n  ", "", "\n"] {
                 for (orm, elm) in [(' ', ' '), ('-', ' '), ('+', ' '), (' ', '-'), (' ', '+')] {
                     for t0 in ["", "a\n", "  "] { for t1 in ["", "\nb", "\r\nb", " b"] {
                         let m = |c: char| if c == ' ' { String::new() } else { c.to_string() };
@@ -244,12 +247,13 @@
                         else if orm == ' ' && trim { if c.starts_with('\r') { c.remove(0); } if c.starts_with('\n') { c.remove(0); } }
                         if elm == '-' { c = c.trim_end().to_string(); }
                         else if elm == ' ' && lstrip {
-                            // the endraw tag is at a line start iff only blanks precede it on its line
-                            let line_tail: &str = c.rsplit(|ch| ch == '\n' || ch == '\r').next().unwrap();
-                            let whole_is_blank_prefix = !content.contains('\n') && false;
-                            if line_tail.chars().all(|ch| ch.is_whitespace()) && (c.contains('\n') || whole_is_blank_prefix) {
-                                let trimmed = c.trim_end_matches(|ch: char| ch.is_whitespace() && ch != '\n' && ch != '\r');
-                                if trimmed.is_empty() || trimmed.ends_with('\n') { c = trimmed.to_string(); }
+                            // the endraw tag is at a line start iff a newline of the raw body precedes it and only blanks
+                            // lie in between; whitespace that reaches back to the raw tag itself is content (the raw tag
+                            // does not end a line). The decision looks at the body as written, the removal applies to
+                            // what the opening side has left of it.
+                            let line_tail: &str = content.rsplit('\n').next().unwrap();
+                            if content.contains('\n') && line_tail.chars().all(|ch| ch.is_whitespace() && ch != '\r') {
+                                c = c.trim_end_matches(|ch: char| ch.is_whitespace() && ch != '\n' && ch != '\r').to_string();
                             }
                         }
                         let mut a = t0.to_string();
